@@ -740,4 +740,67 @@ class GroupInitPlugin(FnSpec):
 def add_pluginmisc(reg):
     reg.set_class_home("PluginGroupMisc", "plugin/interface.py", "PluginGroup")
     reg.set_class_home("PluginBaseObj", "schema/plugins.py", "PluginBase")
-    return [ParseInfo(), InfoRef(), IsPluginLike(), ImplementsMethod(), CheckHelpers("check_implements_method"), CheckHelpers("check_is_subclass"), Unwrap(), IsMarked(), Provider(), IsPlugin(), Keys(), ExplicitDeps(), CheckCommon(), GroupCheckPlugin(), GroupInitPlugin()]
+    return add_markers(reg) + [ParseInfo(), InfoRef(), IsPluginLike(), ImplementsMethod(), CheckHelpers("check_implements_method"), CheckHelpers("check_is_subclass"), Unwrap(), IsMarked(), Provider(), IsPlugin(), Keys(), ExplicitDeps(), CheckCommon(), GroupCheckPlugin(), GroupInitPlugin()]
+
+
+# ---- marking a class as 'obtained without a version' (C16: such handles can be told apart and cannot be subclassed) ---------------------------------------------
+def add_markers(reg):
+    from .oneliners import One, Tr, at, call, show
+
+    c, cls = Tr(("arg", "c")), Tr(("arg", "cls"))
+    marked = z3.Bool("class_is_already_marked")
+
+    class MarkCls(Tr):
+        def py_getattr(self, cx, n):
+            if n == "_is_marked":
+                return lambda cx2, x: SBool(marked)
+            if n == "_fieldname":
+                return lambda cx2: "__Marker_unwrapped__"
+            return Tr.py_getattr(self, cx, n)
+
+    mcls = MarkCls(("arg", "cls"))
+
+    def _setattr(cx, o, n, v):
+        cx.effect("setitem", show(o), show(n), show(v))
+
+    new_cls = call(at(c, "__class__"), at(c, "__name__"), (mcls, c), {})
+    m1 = One("plugin/metaclass.py", "MarkerMixin._mark_class", ("C16",), {"cls": mcls, "c": c}, bindings={"setattr": _setattr}, raises={"TypeError": marked}, result=new_cls, effects=[("setitem", show(new_cls), show("__Marker_unwrapped__"), show(c))], clause="marking creates a NEW class deriving from (marker, original) — the original is untouched — and records the original on it; a class that is already marked is refused")
+
+    class RetCls(SVal):
+        """what MarkerMixin._mark_class hands back: its own dict may or may not have a Plugin entry"""
+
+        def __init__(self):
+            self.assigned = None
+
+        def py_getattr(self, cx, n):
+            if n == "__dict__":
+                return DictOf({"Plugin": "own-plugin-section"} if cx.ghost["mk_has"] else {})
+            raise Unsupported("marked class attribute " + n)
+
+        def py_setattr(self, cx, n, v):
+            self.assigned = (n, v)
+
+    class UV(FnSpec):
+        file = "plugin/metaclass.py"
+        qual = "UndefVersion._mark_class"
+        props = ("C16",)
+
+        def setup(self, cx):
+            has = cx.choose(2) == 1
+            cx.ghost["mk_has"] = has
+            self.ret = RetCls()
+            a = A(cls=Tr(("arg", "cls")), c=c)
+            a.has = has
+            return a
+
+        def raises(self, cx, a):
+            return {}
+
+        def ensures(self, cx, a, res):
+            want = None if a.has else ("Plugin", show(at(c, "Plugin")))
+            got = None if self.ret.assigned is None else (self.ret.assigned[0], show(self.ret.assigned[1]))
+            return [("the-marked-class-carries-the-original-s-Plugin-section", z3.BoolVal(res is self.ret and got == want), "the version-unspecified handle is the marked subclass; it gets the ORIGINAL's Plugin section (unless it has one of its own), so it can be used like the real class while staying distinguishable")]
+
+    uv = UV()
+    reg.method_bindings[("UndefVersion", "super._mark_class")] = lambda cx, obj, cc: uv.ret
+    return [m1, uv]
